@@ -273,6 +273,7 @@ func run(c *hlib.Ctx) {
 	runProfile(c, g, n)
 	runColliderSDF(c, g, n/2+1)
 	runExact(c, g, n)
+	runXform(c, g, n/2+1)
 	// translation validation of the regenerated kernels (lean/M3d/Gen/Kernels.lean)
 	hlib.RunKernels(c, "c06", n/60+3)
 }
